@@ -281,16 +281,7 @@ pub fn run(ctx: &Ctx) -> Report {
     // losing or duplicating any single element of the list changes the models
     {
         let maxk = ctx.tier.pick(16, 24);
-        let mut lists: Vec<Vec<Clause>> = Vec::new();
-        for k in 1..=maxk {
-            for i in 0..k {
-                for j in i..k {
-                    let lit = |p: usize| -> Lit { if p == i { (1, true) } else if p == j { (2, false) } else { (0, true) } };
-                    lists.push(vec![(0..k).map(lit).collect()]);
-                    lists.push((0..k).map(|p| vec![lit(p)]).collect());
-                }
-            }
-        }
+        let lists = long_lists(maxk);
         let chunks: Vec<&[Vec<Clause>]> = lists.chunks(128).collect();
         let fam = par_run(ctx, &chunks, |_, chunk| {
             let mut r = Report::default();
